@@ -395,8 +395,8 @@ def gen_case(rng, config, stream="main", tier="quick"):
             else:
                 H = [abs(x) + 1 / 64.0 for x in H[: len(H) // 2]]
                 H = H + [-x for x in H]
-            return dict(obs=obs, H=H, F=F, years=None, degenerate=which, **({"t": 1.0 / 64} if config.get("param") else {}))
-        if config.get("param") and _zmax([obs, H, F]) > 20:
+            extra["degenerate"] = which
+        elif config.get("param") and _zmax([obs, H, F]) > 20:
             continue
         if config["family"] == "SDMabs" and not tiesF and (len(set(F)) < len(F)):
             continue
@@ -508,7 +508,7 @@ def correspondence(rng, n_cases, tier, res, families=None, ties_fraction=0.25):
         for k in range(n_cases):
             config = CONFIGS[names[k % len(names)]]
             stream = "ties" if rng.random() < ties_fraction else "main"
-            if config["family"] in ("LS", "DC", "QM", "ECDFM", "SDMabs") and not config.get("invalid") and rng.random() < 0.04:
+            if config["family"] in ("LS", "DC", "QM", "ECDFM", "SDMabs", "QDM") and not config.get("invalid") and not config.get("years") and rng.random() < 0.04:
                 stream = "degenerate"
             case = gen_case(rng, config, stream, tier)
             params = case_params(case)
